@@ -47,6 +47,9 @@ struct Conn : public IConnection
         OnDataReceived(p, (uint32)c.size());
         delete[] p;
     }
+    // X mode: chunks are fed in place from one exact-size heap copy of the stream (reads past the END of the stream are ASan errors;
+    // reads past the end of a chunk show as wrong deliveries)
+    void FeedInPlace(const uint8* p, uint32 n) { OnDataReceived(p, n); }
     void SetState(const Bytes& b, uint32 req) { m_fragment_buffer = b; m_fragment_buffer_bytes_required = req; }
     const std::vector<uint8>& Buf() const { return m_fragment_buffer; }
     uint32 Required() const { return m_fragment_buffer_bytes_required; }
@@ -110,16 +113,24 @@ int main()
             if (mode == "X") { size_t n; is >> n; for (size_t i = 0; i < n; i++) { is >> tok; expect.push_back(unhex(tok)); } }
             size_t L = stream.size();
             uint64 masks = L ? (1ull << (L - 1)) : 1, failures = 0, first = 0;
+            uint8* heap = new uint8[L ? L : 1];
+            if (L) memcpy(heap, stream.data(), L);
             for (uint64 mask = 0; mask < masks; mask++)
             {
                 Recorder r; r.preamble = pre;
                 Conn c; c.SetMsgReceiver(r);
                 size_t start = 0;
                 for (size_t i = 0; i < L; i++)
-                    if (i == L - 1 || (mask >> i) & 1) { c.Feed(Bytes(stream.begin() + start, stream.begin() + i + 1)); start = i + 1; }
+                    if (i == L - 1 || (mask >> i) & 1)
+                    {
+                        if (mode == "A") c.Feed(Bytes(stream.begin() + start, stream.begin() + i + 1));
+                        else c.FeedInPlace(heap + start, (uint32)(i + 1 - start));
+                        start = i + 1;
+                    }
                 if (mode == "A") report(out, c, r);
                 else if (!(r.got == expect && c.Buf().empty() && c.Required() == 0)) { if (!failures) first = mask; failures++; }
             }
+            delete[] heap;
             if (mode == "X")
                 out += "X " + std::to_string(masks) + ' ' + std::to_string(failures) + ' ' + (failures ? std::to_string(first) : std::string("-")) + '\n';
         }
